@@ -51,9 +51,9 @@ the engine's reported match is exactly `[0, |s|)`.  An engine answer that covers
 (`(*ACCEPT)`, `\K`, a `$` before a trailing newline, …) is refused by the wrapper. -/
 theorem full_match_only (rx : Rx) (r : Regex) (s : Bytes) :
     (∀ m, rxMatchMarks rx Gen.quirks r s = some m →
-        ∃ gs, rx.exec r.pat r.icase s = some (((0 : Int), (s.length : Int)), gs) ∧ m.subj = s) ∧
+        ∃ gs, rx.exec r.pat r.flags s = some (((0 : Int), (s.length : Int)), gs) ∧ m.subj = s) ∧
     (rxMatch rx Gen.quirks r s = true →
-        ∃ gs, rx.exec r.pat r.icase s = some (((0 : Int), (s.length : Int)), gs)) := by
+        ∃ gs, rx.exec r.pat r.flags s = some (((0 : Int), (s.length : Int)), gs)) := by
   constructor
   · intro m hm
     rw [rxMatchMarks_eq rx gen_fixed] at hm
@@ -142,10 +142,12 @@ theorem mount_then_dispatch (rx : Rx) (hs : RxSound rx) (req : Option Bytes) (o 
   rw [dispatch_eq_spec rx hs]
   exact ran_mem_route_iff rx req id args (o.depth + 1) o url (by omega)
 
-/-- Every argument any handler, at any depth, is given is a contiguous substring of the request path. -/
+/-- Every argument any handler, at any depth, is given is a contiguous substring of the request path — or, for the
+integer parameters of typed `map()` handlers, the (decimal text of the) value that such a substring denotes
+(`Spec.ArgOf`). -/
 theorem args_infix_of_request (rx : Rx) (hs : RxSound rx) (req : Option Bytes) (o : Opts) (url : Bytes)
     (ev : Event) (hev : ev ∈ (dispatch rx Gen.quirks req o url).2) (x : Bytes) (hx : some x ∈ ev.args) :
-    x <:+: url := by
+    Spec.ArgOf rx url x := by
   rw [dispatch_eq_spec rx hs] at hev
   exact args_infix_route rx req _ o url ev hev x hx
 
@@ -331,7 +333,7 @@ open Ex
 theorem exRx_sound : RxSound exRx := by
   have htab : ∀ e ∈ exTable, (spanOk e.2.1.length e.2.2.1 ∧ ∀ sp ∈ e.2.2.2, spanOk e.2.1.length sp) ∧
       e.2.2.2.length ≤ ((exCounts.find? (·.1 == e.1)).map (·.2)).getD 0 := by decide
-  have hfind : ∀ pat s r, exRx.exec pat false s = some r → (pat, s, r) ∈ exTable := by
+  have hfind : ∀ pat s r, exRx.exec pat {} s = some r → (pat, s, r) ∈ exTable := by
     intro pat s r h
     simp only [exRx, Option.map_eq_some_iff] at h
     obtain ⟨e, he, rfl⟩ := h
@@ -351,7 +353,7 @@ theorem exRx_sound : RxSound exRx := by
 
 /-- the engine reports a match of `/about` on `/aboutX` that covers only a prefix (as `(*ACCEPT)` would):
 the wrapper refuses it, in both overloads -/
-example : exRx.exec exPat_about false aboutX = some ((0, 6), []) ∧
+example : exRx.exec exPat_about {} aboutX = some ((0, 6), []) ∧
     rxMatchMarks exRx Gen.quirks (re exPat_about) aboutX = none ∧ rxMatch exRx Gen.quirks (re exPat_about) aboutX = false := by
   decide
 
@@ -411,7 +413,7 @@ theorem d13_counterexample_before_fix :
     let rx : Rx := { info := fun _ _ => some 0,
                      exec := fun _ _ s => if s = [97, 98] then some ((0, 2), []) else none }
     let qOld : Quirks := { Gen.quirks with pathCStr := true }
-    let o : Opts := .leaf ⟨1, ⟨[97, 98], false⟩, none, .h0⟩ .nil
+    let o : Opts := .leaf ⟨1, ⟨[97, 98], {}⟩, none, .h0⟩ .nil
     dispatch rx qOld none o [97, 98, 0, 99, 100] = (true, [.ran 1 []]) ∧
     Spec.route rx none 1 o [97, 98, 0, 99, 100] = (false, []) := by decide
 
